@@ -14414,6 +14414,9 @@ func (l *Lowerer) lowerTextureSampleWithDeferredGrad(sampleArgs []parser.Expr, d
 
 func (l *Lowerer) lowerTextureSample(args []parser.Expr, target *[]ir.Statement, level ir.SampleLevel) (ir.ExpressionHandle, error) {
 	// args: texture, sampler, coordinate [, array_index_or_offset] [, offset]
+	if len(args) < 3 {
+		return 0, fmt.Errorf("textureSample requires at least 3 arguments, got %d", len(args))
+	}
 	image, err := l.lowerExpression(args[0], target)
 	if err != nil {
 		return 0, err
@@ -14808,6 +14811,9 @@ func (l *Lowerer) lowerTextureLoad(args []parser.Expr, target *[]ir.Statement) (
 	//   textureLoad(t, coords, array_index, level)  — arrayed sampled textures
 	//   textureLoad(t, coords, sample_index)         — multisampled textures
 	//   textureLoad(t, coords)                       — storage textures
+	if len(args) < 2 {
+		return 0, fmt.Errorf("textureLoad requires at least 2 arguments, got %d", len(args))
+	}
 	image, err := l.lowerExpression(args[0], target)
 	if err != nil {
 		return 0, err
